@@ -189,6 +189,7 @@ structure Item where
 
 structure CtxSt where
   alive : Bool
+  routerDown : Bool                  -- `MessageRouter.stop` has begun: `_socket_manager is None`, every send raises at once
   objs : Obj → ObjSt                 -- `_rpc_object_map`
   lsubs : Key → List Rcv             -- `_local_subscriptions`
   rsubs : RKey → List Peer           -- `_remote_subscriptions`
@@ -236,7 +237,7 @@ structure State where
   snaps : List Snap
 
 def CtxSt.init : CtxSt :=
-  { alive := true, objs := fun _ => .absent, lsubs := fun _ => [], rsubs := fun _ => [], rdom := [],
+  { alive := true, routerDown := false, objs := fun _ => .absent, lsubs := fun _ => [], rsubs := fun _ => [], rdom := [],
     pobj := fun _ => none, byId := fun _ => none, byKey := fun _ => none, nextReq := 0,
     peers := fun _ => none, loopQ := [], got := fun _ => [], fut := fun _ => none }
 
@@ -263,6 +264,7 @@ inductive Act
   | arrive (cn : ConnId) (cli : Bool)         -- socket thread reads the next whole message at that end
   | eof (cn : ConnId) (cli : Bool)            -- socket thread sees end-of-stream at that end
   | connect (a : Ctx) (p : Ctx)               -- `connect_to_peer` (handshake + both registrations, atomic)
+  | stopReq (c : Ctx)                         -- `MessageRouter.stop` begins: `close_all` queued, router marked inactive
   | stop (c : Ctx)                            -- `QMI_Context.stop`: `close_all` runs, the context is gone
   deriving DecidableEq, Repr
 
@@ -419,10 +421,10 @@ def microStep (s : State) (th : Th) (choice choice2 : Nat) (op : MOp) (rest : Li
     | some d =>
       let ps' := ps.erase d
       let tail := if ps' = [] then rest else .pubSend ps' ob sg p :: rest
-      if (cs.peers d).isSome then fin cs (.enq d (.signal ob sg p) :: tail) (.tau "peer-ok")
+      if (cs.peers d).isSome && !cs.routerDown then fin cs (.enq d (.signal ob sg p) :: tail) (.tau "peer-ok")
       else fin cs tail (.tau "peer-unknown")
   | .sendChk d m =>
-    if (cs.peers d).isSome then fin cs (.enq d m :: rest) (.tau "peer-ok")
+    if (cs.peers d).isSome && !cs.routerDown then fin cs (.enq d m :: rest) (.tau "peer-ok")
     else fin cs (onSendFail m ++ rest) (.tau "peer-unknown")
   | .enq d m => fin { cs with loopQ := cs.loopQ ++ [.smSend d m] } rest (.tau "enq")
   | .chkObj1 _k _r =>
@@ -487,7 +489,7 @@ def microStep (s : State) (th : Th) (choice choice2 : Nat) (op : MOp) (rest : Li
     | some x =>
       let ns' := ns.erase x
       let tail := if ns' = [] then rest else .notify ns' ob :: rest
-      if (cs.peers x.2).isSome then fin cs (.enq x.2 (.removed ob x.1) :: tail) (.tau "peer-ok")
+      if (cs.peers x.2).isSome && !cs.routerDown then fin cs (.enq x.2 (.removed ob x.1) :: tail) (.tau "peer-ok")
       else fin cs tail (.tau "peer-unknown")
   | .delObj ob => fin { cs with objs := upd cs.objs ob .absent } rest (.tau "deleted")
   | .reserveObj ob =>
@@ -597,6 +599,10 @@ def step (s : State) : Act → Option (State × Out)
       some ({ s2 with conn := upd s2.conn cn { cli := { owner := a, isOpen := true, inbox := [], pend := [] },
                                                srv := { owner := p, isOpen := true, inbox := [], pend := [] } },
                       nextConn := cn + 1 }, .req "connect" cn)
+    else none
+  | .stopReq c =>
+    if (s.ctx c).alive then
+      some (s.setCtx c { (s.ctx c) with routerDown := true }, .tau "stop-requested")
     else none
   | .stop c =>
     if (s.ctx c).alive then
